@@ -49,6 +49,25 @@ func isBlockStart(label string) bool {
 func candidateEdits(t Tape) []edit {
 	var eds []edit
 	names := kernel.StreamNames(t)
+	// 0. fewer parties first: tasks, keys, points, scalars
+	for _, name := range names {
+		name := name
+		for i, c := range t[name] {
+			switch c.Label {
+			case "ntasks", "nkeys", "npoints", "nscalars", "nfocus":
+			default:
+				continue
+			}
+			if c.V == 0 {
+				continue
+			}
+			i := i
+			eds = append(eds, edit{"zero " + name + ":" + c.Label, func(t Tape) Tape { t[name][i].V = 0; return t }})
+			if c.V > 1 {
+				eds = append(eds, edit{"dec " + name + ":" + c.Label, func(t Tape) Tape { t[name][i].V--; return t }})
+			}
+		}
+	}
 	// 1. drop whole streams (replay yields zeros for a missing stream)
 	for _, name := range names {
 		name := name
